@@ -721,4 +721,73 @@ theorem legacy_resync_exact (cap : Nat) (g p1 : List Byte) (ps : List (List Byte
 example : ldelivered (LRecv.init 8) ([0xAC#8, 0x66#8] ++ [[0x41#8], [0x42#8]].flatMap encodeLeg) = [[0x41#8], [0x42#8]] := by
   decide +kernel
 
+/-! ### round 3b: the overflow clause on the buffer-level trace when start = stop -/
+
+/-- `overflow_reported_buf` WITHOUT the restriction start ≠ stop: the history `g` may leave the receiver in any
+state when the markers differ, in any READY state (between frames or primed) when they coincide (v0).  The
+buffer-level trace the driver prints exists, OVERFLOW is among the answers to the over-long frame, deliveries =
+those of the history. -/
+theorem overflow_reported_buf_ready (ctx : Ctx) (h : ctx.WF)
+    (buf : List Byte) (cap : BitVec 32) (hcap1 : 1 ≤ cap.toNat) (hblk : cap.toNat ≤ buf.length)
+    (g pre rest : List Byte)
+    (hr : ctx.start ≠ ctx.stop ∨ Ready (feed ctx (Recv.init cap.toNat) g).1)
+    (hnm : ∀ b ∈ pre ++ rest, b ≠ ctx.start ∧ b ≠ ctx.stop)
+    (u : List Byte) (pend : Bool) (hu : unescPartial ctx pre = some (u, pend))
+    (hbig : cap.toNat - 1 < u.length) :
+    ∃ t t0, bfeedTrace ctx (BRecv.init buf cap) (g ++ ctx.start :: ((pre ++ rest) ++ [ctx.stop])) = some t ∧
+      bfeedTrace ctx (BRecv.init buf cap) g = some t0 ∧
+      'O' ∈ t.1.drop g.length ∧ t.2 = t0.2 := by
+  have hc : (feed ctx (Recv.init cap.toNat) g).1.cap = cap.toNat := feed_cap ctx _ g
+  obtain ⟨o1, o2, _⟩ := overflow_any_state ctx h (feed ctx (Recv.init cap.toNat) g).1 hr pre rest hnm u pend hu
+    (by rw [hc]; exact hbig)
+  refine ⟨_, _, recv_trace_never_faults ctx buf cap hcap1 hblk _, recv_trace_never_faults ctx buf cap hcap1 hblk _, ?_, ?_⟩
+  · rw [feedTrace_eq, feed_append]
+    simp only [List.map_append]
+    rw [List.drop_left' (by rw [List.length_map, feed_length])]
+    exact List.mem_map.mpr ⟨OVERFLOW, o1, by decide⟩
+  · rw [feedTrace_eq, feedTrace_eq]
+    simp only [delivered_append, o2, List.append_nil]
+
+-- non-vacuity (v0, start = stop): after the history "frame of [41]" (a delivered packet) the receiver is between frames
+example : Ctx.v0.start = Ctx.v0.stop ∧ Ready (feed Ctx.v0 (Recv.init 3) (encode Ctx.v0 [0x41#8])).1 :=
+  ⟨by decide, Or.inl (Or.inl (by decide +kernel))⟩
+
+/-- THE REMAINING CASE, exactly: start = stop and the history leaves the receiver INSIDE a frame with a
+non-empty line (the only states that are not `Ready` besides "after the escape byte", from which the opening
+marker restarts the frame).  Then the opening marker of the next frame is taken for a stop marker and the
+frame - over-long or not, ANY body without a marker - is skipped as garbage: the buffer-level trace exists (no
+access outside the block), what is delivered is exactly what the history followed by that one marker delivers
+(NOTHING of the frame), and OVERFLOW is not among the answers.  So "not delivered" holds in every state;
+"reported as overflow" fails exactly here (`overflow_coincide_inframe_witness`): this frame is the one the
+resynchronisation clause allows to be lost when the markers coincide (`resync_loss_exact`). -/
+theorem overflow_coincide_inframe_buf (ctx : Ctx) (he : ctx.start = ctx.stop)
+    (buf : List Byte) (cap : BitVec 32) (hcap1 : 1 ≤ cap.toNat) (hblk : cap.toNat ≤ buf.length)
+    (g body : List Byte) (hnm : ∀ b ∈ body, b ≠ ctx.start)
+    (hs : (feed ctx (Recv.init cap.toNat) g).1.state = .s1)
+    (hl : (feed ctx (Recv.init cap.toNat) g).1.line ≠ []) :
+    ∃ t t0, bfeedTrace ctx (BRecv.init buf cap) (g ++ ctx.start :: (body ++ [ctx.stop])) = some t ∧
+      bfeedTrace ctx (BRecv.init buf cap) (g ++ [ctx.start]) = some t0 ∧
+      t.2 = t0.2 ∧ 'O' ∉ t.1.drop g.length := by
+  have key : delivered ctx (feed ctx (Recv.init cap.toNat) g).1 (ctx.start :: (body ++ [ctx.stop])) =
+        delivered ctx (feed ctx (Recv.init cap.toNat) g).1 [ctx.start] ∧
+      OVERFLOW ∉ (feed ctx (feed ctx (Recv.init cap.toNat) g).1 (ctx.start :: (body ++ [ctx.stop]))).2 := by
+    generalize (feed ctx (Recv.init cap.toNat) g).1 = r at hs hl
+    obtain ⟨st, crc, line, cp⟩ := r
+    simp only at hs hl
+    subst hs
+    exact inframe_swallow ctx he crc line cp hl body hnm
+  refine ⟨_, _, recv_trace_never_faults ctx buf cap hcap1 hblk _, recv_trace_never_faults ctx buf cap hcap1 hblk _, ?_, ?_⟩
+  · rw [feedTrace_eq, feedTrace_eq]
+    simp only [delivered_append, key.1]
+  · rw [feedTrace_eq, feed_append]
+    simp only [List.map_append]
+    rw [List.drop_left' (by rw [List.length_map, feed_length])]
+    intro hmem
+    obtain ⟨x, hx, hxo⟩ := List.mem_map.mp hmem
+    have : x = OVERFLOW := stsChar_O x hxo
+    exact key.2 (this ▸ hx)
+
+example : Ctx.v0.start = Ctx.v0.stop ∧ (feed Ctx.v0 (Recv.init 3) [0xAC#8, 0x55#8]).1.state = .s1 ∧
+    (feed Ctx.v0 (Recv.init 3) [0xAC#8, 0x55#8]).1.line ≠ [] := by decide +kernel
+
 end Igris.Gstuff
